@@ -1,6 +1,47 @@
 /-
 Facts about the reference machine KV.Spec alone (gating, frames, checkpoint round trip).
 (Single Mathlib modules may be imported; never `import Mathlib`.)
+
+The work is in
+* Lemmas/SpecFrames.lean — which operation touches which field, `step`/`fwdBwd`/`saveLoad` in stages;
+* Lemmas/SpecC05.lean — gating by the intervals, schedules;
+* Lemmas/SpecC09.lean — the "same future" relation (and the spec-level definitions of Props/C09);
+* Lemmas/PrecondRT.lean — the round trip on every rank of M-Precond.
+This file adds the consequences of the refinement theorem used by Props/C02.
 -/
 import KfacVerif.Lemmas.Refine
+import KfacVerif.Lemmas.SpecC09
+import KfacVerif.Lemmas.PrecondRT
 
+namespace KV.Refine
+open KV KV.Precond KV.Spec
+
+/-- `CfgOK2` does not mention bucketing or symmetry-aware communication -/
+theorem CfgOK2.bucket_sym {c : Cfg} (hc : CfgOK2 c) (bucketed sym : Bool) (cap : Nat) :
+    CfgOK2 { c with bucketed := bucketed, cap := cap, symAware := sym } := by
+  obtain ⟨a1, a2, a3, a4, a5, a6, a7, a8, a9, a10, a11, a12⟩ := hc
+  exact ⟨a1, a2, a3, a4, a5, a6, a7, a8, a9, a10, a11, a12⟩
+
+theorem ofCfg_bucket_sym (c : Cfg) (bucketed sym : Bool) (cap : Nat) :
+    ofCfg { c with bucketed := bucketed, cap := cap, symAware := sym } = ofCfg c := rfl
+
+/-- the gradients every rank is left with are those of the reference machine -/
+theorem out_eq_spec (c : Cfg) (hc : CfgOK2 c) (h : Hyper) (ops : List Op)
+    (hne : (Precond.run c (St.init c h) ops).err = none) {r : Nat} (hr : r < c.world) :
+    (Precond.run c (St.init c h) ops).outGrads.getD r [] =
+      (Spec.run (ofCfg c) (SSt.init (ofCfg c) h) ops).out :=
+  (refines c hc h ops hne).2.2.1 r hr
+
+theorem ranks_agree (c : Cfg) (hc : CfgOK2 c) (h : Hyper) (ops : List Op)
+    (hne : (Precond.run c (St.init c h) ops).err = none) {r r' : Nat} (hr : r < c.world) (hr' : r' < c.world) :
+    (Precond.run c (St.init c h) ops).outGrads.getD r [] = (Precond.run c (St.init c h) ops).outGrads.getD r' [] :=
+  (out_eq_spec c hc h ops hne hr).trans (out_eq_spec c hc h ops hne hr').symm
+
+theorem placement_irrelevant (c₁ c₂ : Cfg) (h₁ : CfgOK2 c₁) (h₂ : CfgOK2 c₂)
+    (hs : ofCfg c₁ = ofCfg c₂) (h : Hyper) (ops : List Op)
+    (e₁ : (Precond.run c₁ (St.init c₁ h) ops).err = none) (e₂ : (Precond.run c₂ (St.init c₂ h) ops).err = none)
+    {r r' : Nat} (hr : r < c₁.world) (hr' : r' < c₂.world) :
+    (Precond.run c₁ (St.init c₁ h) ops).outGrads.getD r [] = (Precond.run c₂ (St.init c₂ h) ops).outGrads.getD r' [] := by
+  rw [out_eq_spec c₁ h₁ h ops e₁ hr, out_eq_spec c₂ h₂ h ops e₂ hr', hs]
+
+end KV.Refine
